@@ -3,7 +3,7 @@
    from the generic struct lemma of Proofs/GobP.v under the leaf table condition [leaves_ok].  Then the
    soundness of every encoder / decoder pair the table condition of the 14 struct kinds accepts. *)
 From AP.Model Require Import Prelude Vocab Bytes Layout Pred Dispatch GobTables Gob GobCheck GobNorm GobWhole.
-From AP.Proofs Require Import NlvP ViewsP GobP.
+From AP.Proofs Require Import NlvP ViewsP GobCodecP GobP.
 
 Lemma gotype_eqb_eq a b : gotype_eqb a b = true -> a = b.
 Proof.
@@ -148,6 +148,8 @@ Section Leaf.
 Variable E : gob_env.
 Hypothesis Hleaves : leaves_ok E = true.
 Hypothesis Hep : ge_endpoints_codec E = true.
+Hypothesis Hcodecs : codecs_ok E = true.
+Hypothesis Henc : enc_item_ok E = true.
 Variable rec : wire -> outcome item.
 Hypothesis Hnil : rec_ok E rec INil.
 Notation N := (norm_item (ge_layout E) (ge_layout_endpoints E)).
@@ -161,6 +163,21 @@ Proof.
   pose proof Hleaves as H. unfold leaves_ok in H. do 5 (apply andb_true_iff in H; destruct H as [H ?]). repeat split; assumption.
 Qed.
 
+(* the interpreted one-call codecs are the closed forms (codecs_ok): the pair lemma of GobP.v transports *)
+Lemma codec_pair_sound0t t cw cr (ov : option fval) cur :
+  pair_ok0 t cw cr = true ->
+  (forall v, ov = Some v -> shape_ok t v = true) ->
+  (forall v i, ov = Some v -> In i (items_of v) -> rec_ok E rec i) ->
+  rec_ok E rec INil ->
+  (cw <> CwIri -> cw <> CwType -> cw <> CwRawBytes -> cur_ok cur) ->
+  (t = TItems -> is_item_codec cw = true -> exists l, ov = Some (FItems (Some l))) ->
+  (is_item_codec cw = true -> forall s, ov = Some (FStr s) -> s = [] \/ iri_nilish s = false) ->
+  exists v', rdec0 E rec cr cur (wenc0 E cw (option_map (pre_fval E) ov)) = Ok v' /\
+             NV v' = match ov with Some v => NV v | None => None end.
+Proof.
+  intros. rewrite (wenc0_closed E Hcodecs Henc), (rdec0_closed E Hcodecs). eapply codec_pair_sound0; eauto.
+Qed.
+
 Lemma shape_str_type t s : shape_ok t (FStr s) = true -> t = TString.
 Proof. destruct t; simpl; try discriminate; reflexivity. Qed.
 
@@ -170,7 +187,7 @@ Lemma leaf_rt n allowed fs :
   (forall d v, In d (leaf_layout E n) -> getf (fd_fid d) fs = Some v -> shape_ok (fd_type d) v = true) ->
   (forall d v i, In d (leaf_layout E n) -> getf (fd_fid d) fs = Some v -> In i (items_of v) -> rec_ok E rec i) ->
   (forall f s, In f allowed -> getf f fs = Some (FStr s) -> s = [] \/ iri_nilish s = false) ->
-  exists out, rdec_leaf E rec n [] (enc_map_gen wenc0 (leaf_w E n) (pre_fields E fs)) = Ok out /\
+  exists out, rdec_leaf E rec n [] (enc_map_gen (wenc0 E) (leaf_w E n) (pre_fields E fs)) = Ok out /\
               forall d, In d (leaf_layout E n) -> ON out (fd_fid d) = ON fs (fd_fid d).
 Proof.
   intros Hl Hshape Hrec Hallowed.
@@ -187,16 +204,16 @@ Proof.
       rewrite fid_beq_refl. rewrite (shape_str_type _ _ (Hshape d _ Hd Hget)). reflexivity.
     - apply existsb_exists in Hsi. destruct Hsi as [f [Hf Hfe]]. apply fid_beq_eq in Hfe. subst f. eapply Hallowed; eauto. }
   assert (Hindep0 : forall t cw cr, pair_ok0 t cw cr = true ->
-            forall cur cur' w v, rdec0 rec cr cur w = Ok v -> exists v', rdec0 rec cr cur' w = Ok v').
+            forall cur cur' w v, rdec0 E rec cr cur w = Ok v -> exists v', rdec0 E rec cr cur' w = Ok v').
   { intros t cw cr _ cur cur' w v. apply rdec0_indep. }
-  unfold enc_map_gen. destruct (gmap_gen wenc0 (leaf_w E n) (pre_fields E fs)) as [mm has] eqn:Hg.
+  unfold enc_map_gen. destruct (gmap_gen (wenc0 E) (leaf_w E n) (pre_fields E fs)) as [mm has] eqn:Hg.
   destruct has.
-  - destruct (struct_rt E rec wenc0 (rdec0 rec) fits0 pair_ok0 (codec_pair_sound0 E rec) Hindep0
+  - destruct (struct_rt E rec (wenc0 E) (rdec0 E rec) fits0 pair_ok0 codec_pair_sound0t Hindep0
                 _ _ _ Hok fs Hnil [] Hshape Hrec Hstr) as [out [Hout Hf]].
     { intros d Hd. left. now left. }
     rewrite Hg in Hout. simpl in Hout. exists out. split; [exact Hout|exact Hf].
   - exists []. split; [reflexivity|]. intros d Hd.
-    rewrite (nodata_unset E wenc0 fits0 pair_ok0 _ _ _ Hok fs Hshape d Hd); [reflexivity|]. now rewrite Hg.
+    rewrite (nodata_unset E (wenc0 E) fits0 pair_ok0 _ _ _ Hok fs Hshape d Hd); [reflexivity|]. now rewrite Hg.
 Qed.
 
 (* ---- Source *)
@@ -391,7 +408,7 @@ Proof.
   - intros d v i Hd Hget Hi. rewrite getf_endp_fields in Hget. destruct (fget (fd_fid d) e) as [x|] eqn:Hx; [|discriminate].
     injection Hget as <-. destruct Hi as [<-|[]]. apply Hrec. eapply fget_In; eauto.
   - intros f s [].
-  - rewrite pre_endp_fields. unfold rdec_endpoints_fn. cbn [wenc]. unfold wenc_endpoints. rewrite Hep, Hout. simpl.
+  - rewrite pre_endp_fields. rewrite (rdec_endpoints_fn_closed E Hcodecs). unfold rdec_endpoints_method. cbn [wenc]. unfold wenc_endpoints. rewrite Hep, Hout. simpl.
     eexists. split; [reflexivity|].
     rewrite !norm_endpoints.
     assert (Hre : reorder_items (ge_layout_endpoints E) (norm_endp (ge_layout E) (ge_layout_endpoints E) (endp_of E out)) =
@@ -418,7 +435,7 @@ Lemma rdec_leaf_indep n c1 c2 w o :
   rdec_leaf E rec n c1 w = Ok o -> exists o', rdec_leaf E rec n c2 w = Ok o'.
 Proof.
   unfold rdec_leaf. intros H.
-  assert (Hg : forall mm, gunmap_gen (rdec0 rec) (leaf_r E n) mm c1 = Ok o -> exists o', gunmap_gen (rdec0 rec) (leaf_r E n) mm c2 = Ok o').
+  assert (Hg : forall mm, gunmap_gen (rdec0 E rec) (leaf_r E n) mm c1 = Ok o -> exists o', gunmap_gen (rdec0 E rec) (leaf_r E n) mm c2 = Ok o').
   { intros mm Hm. unfold gunmap_gen in *. eapply fold_rstep_indep; [|exact Hm]. intros. eapply rdec0_indep; eauto. }
   destruct w; try (now eauto); destruct (gd_map _) as [mm| | |] eqn:Hm; simpl in *; try discriminate; eauto.
 Qed.
@@ -429,9 +446,9 @@ Lemma rdec_indep t cw cr :
 Proof.
   intros Hp cur cur' w v H.
   destruct cr;
-    try (change (rdec0 rec ?c cur w = Ok v) in H; eapply rdec0_indep; exact H);
-    try (match type of H with rdec E rec ?c cur w = _ => change (rdec0 rec c cur w = Ok v) in H;
-                                                          change (exists v', rdec0 rec c cur' w = Ok v') end;
+    try (change (rdec0 E rec ?c cur w = Ok v) in H; eapply rdec0_indep; exact H);
+    try (match type of H with rdec E rec ?c cur w = _ => change (rdec0 E rec c cur w = Ok v) in H;
+                                                          change (exists v', rdec0 E rec c cur' w = Ok v') end;
          eapply rdec0_indep; exact H).
   - (* Source *)
     unfold rdec, rdec_source in *.
@@ -458,12 +475,12 @@ Lemma codec_pair_sound t cw cr (ov : option fval) cur :
 Proof.
   intros Hp Hshape Hrec _ Hcur Hitems Hstr.
   assert (Hl0 : t <> TSource -> t <> TEndpoints -> t <> TPubKey ->
-                pair_ok0 t cw cr = true /\ (forall x, wenc E cw x = wenc0 cw x) /\
-                (forall c w, rdec E rec cr c w = rdec0 rec cr c w)).
+                pair_ok0 t cw cr = true /\ (forall x, wenc E cw x = wenc0 E cw x) /\
+                (forall c w, rdec E rec cr c w = rdec0 E rec cr c w)).
   { intros H1 H2 H3. destruct t; try congruence; destruct cw; try discriminate; destruct cr; try discriminate;
       (split; [reflexivity|split; [intros x; reflexivity|intros c w; reflexivity]]). }
   destruct t.
-  1-10, 14: (destruct Hl0 as (Hp0 & Hw & Hr); try discriminate; rewrite Hw, Hr; eapply codec_pair_sound0; eauto).
+  1-10, 14: (destruct Hl0 as (Hp0 & Hw & Hr); try discriminate; rewrite Hw, Hr; eapply codec_pair_sound0t; eauto).
   - (* Source *)
     destruct cw; try discriminate; destruct cr; try discriminate.
     specialize (Hcur ltac:(discriminate) ltac:(discriminate) ltac:(discriminate)).
@@ -476,7 +493,7 @@ Proof.
   - (* Endpoints *)
     destruct cw; try discriminate; destruct cr; try discriminate.
     assert (Hnone : exists v', rdec_endpoints_fn E rec WEmpty = Ok v' /\ NV v' = None).
-    { unfold rdec_endpoints_fn. rewrite Hep. cbn [rdec_leaf obind]. eexists. split; [reflexivity|].
+    { rewrite (rdec_endpoints_fn_closed E Hcodecs). unfold rdec_endpoints_method. rewrite Hep. cbn [rdec_leaf obind]. eexists. split; [reflexivity|].
       rewrite norm_endpoints, endp_of_nil. unfold norm_endp. simpl. now rewrite reorder_items_nil. }
     destruct ov as [v|].
     + specialize (Hshape v eq_refl). destruct v as [| | | | | | | | | | |e0|]; try discriminate.
